@@ -657,6 +657,9 @@ def run(ctx):
     from props import c13_sessions
 
     c13_sessions.run(ctx)
+    from props import c13_validity
+
+    c13_validity.run(ctx)
 
 
 def replay(ctx, case):
@@ -665,6 +668,14 @@ def replay(ctx, case):
 
         try:
             c13_sessions.check(case)
+        except Violation as violation:
+            return [violation]
+        return []
+    if isinstance(case, dict) and case.get("part") == "validity":
+        from props import c13_validity
+
+        try:
+            c13_validity.check(case, ctx.scratch)
         except Violation as violation:
             return [violation]
         return []
